@@ -220,9 +220,26 @@ type c09Scn struct {
 	sched    *c09Sched
 	mu       sync.Mutex
 	log      []c09LogEnt
-	evs      []c09LogEnt
+	evs      []c09EvEnt
 	notes    []string
+	cs       *vg.Cases // for counters raised while a call is observed
+	trustedBefore []int64 // heights in the store when the current call began
+	forceChurn    map[int64]int // height -> 1: a power changes there, 2: a validator is replaced there
+	forkKind string    // "", "lunatic", "equivocation", "amnesia"
+	forkDT   time.Duration
 }
+
+// one reported evidence as the implementation filled it
+type c09EvEnt struct {
+	p, h, r int64 // receiver, hash id of ConflictingBlock, CommonHeight
+	ev      *types.LightClientAttackEvidence
+}
+
+// C09PoolAdd is set by verif_c09_pool_test.go (package light_test, which may import the evidence
+// package): AddEvidence of a real evidence.Pool over the chain headers[1..top] / vals[1..top]
+// whose state is at height top.
+var C09PoolAdd func(chainID string, headers []*types.SignedHeader, vals []*types.ValidatorSet, top int64,
+	lastTime time.Time, ev *types.LightClientAttackEvidence) error
 
 func c09NewScn(r *vg.Rand) *c09Scn {
 	return &c09Scn{r: r, vsBy: map[string]int{}, unkVS: map[string]int64{}, fork: map[int64]int{},
@@ -586,7 +603,23 @@ func (sc *c09Scn) genChainP(n int64, fixed []int64) {
 	sc.vals = make([]*c09VS, n+2)
 	sc.vals[1] = sc.mkVS(keys, pows)
 	for h := int64(2); h <= n+1; h++ {
-		if fixed == nil && r.Chance(40) {
+		if k, ok := sc.forceChurn[h]; ok && fixed == nil {
+			cur := sc.vals[h-1]
+			keys := append([]int{}, cur.keys...)
+			pows := append([]int64{}, cur.pows...)
+			if k == 1 { // powers only
+				pows[len(pows)-1] = pows[len(pows)-1]%10 + 1
+			} else { // membership: the weakest validator is replaced
+				wi := 0
+				for i := range pows {
+					if pows[i] < pows[wi] {
+						wi = i
+					}
+				}
+				keys[wi] = sc.freshKey()
+			}
+			sc.vals[h] = sc.mkVS(keys, pows)
+		} else if fixed == nil && r.Chance(40) {
 			sc.vals[h] = sc.churn(sc.vals[h-1])
 		} else {
 			sc.vals[h] = sc.vals[h-1]
@@ -700,6 +733,12 @@ func (sc *c09Scn) makeFork(a, b int64, lunatic bool, class int, link bool) {
 			a, b, sc.n, class, co, sc.vals[a].idx, fvs.idx)
 	} else {
 		sc.forkTxt = fmt.Sprintf("equivocation fork (other DataHash, genuine sets) at %d..%d", b, sc.n)
+		if sc.forkKind == "amnesia" {
+			sc.forkTxt = fmt.Sprintf("amnesia fork (other DataHash, genuine sets, commits of round 1) at %d..%d", b, sc.n)
+		}
+	}
+	if sc.forkDT != 0 {
+		sc.forkTxt += fmt.Sprintf(", header times shifted by %dns against the genuine ones", int64(sc.forkDT))
 	}
 	var last types.BlockID
 	if b > 1 {
@@ -720,7 +759,12 @@ func (sc *c09Scn) makeFork(a, b int64, lunatic bool, class int, link bool) {
 			sp.app = c09H("fork-app")
 		} else {
 			sp.kind = "fork-equivocation"
+			if sc.forkKind == "amnesia" {
+				sp.kind = "fork-amnesia"
+				sp.cR = 1 // the same validators committed the other block in another round
+			}
 		}
+		sp.t = sp.t.Add(sc.forkDT) // |forkDT| < 1s: still between the neighbours' times
 		sc.fork[h] = sc.build(sp)
 		last = types.BlockID{Hash: sc.blocks[sc.fork[h]].lb.Hash(), PartSetHeader: c09PSH}
 	}
@@ -918,6 +962,7 @@ type c09Provider struct {
 	validating bool
 	kind       string
 	script     map[int64][]c09Reply
+	script0    map[int64][]c09Reply // the script as it was when the run began
 }
 
 func (p *c09Provider) ChainID() string { return c09ChainID }
@@ -978,10 +1023,11 @@ func (p *c09Provider) LightBlock(ctx context.Context, h int64) (*types.LightBloc
 
 func (p *c09Provider) ReportEvidence(ctx context.Context, ev types.Evidence) error {
 	sc := p.sc
-	e := c09LogEnt{p: p.id, h: -1, r: -1}
+	e := c09EvEnt{p: p.id, h: -1, r: -1}
 	if lc, ok := ev.(*types.LightClientAttackEvidence); ok && lc.ConflictingBlock != nil {
 		e.h = sc.hid(lc.ConflictingBlock.Hash())
 		e.r = lc.CommonHeight
+		e.ev = lc
 	}
 	sc.mu.Lock()
 	sc.evs = append(sc.evs, e)
@@ -1604,6 +1650,7 @@ func (sc *c09Scn) observe(cl *Client, err error, panicked interface{}, prim0 int
 	var store []string
 	var stxt []string
 	var unreadable []int64
+	var hts []int64
 	prim := prim0
 	wits := wits0
 	if cl != nil {
@@ -1629,6 +1676,7 @@ func (sc *c09Scn) observe(cl *Client, err error, panicked interface{}, prim0 int
 				if h < first || h > last {
 					sc.notes = append(sc.notes, fmt.Sprintf("store entry at height %d outside [first %d, last %d]", h, first, last))
 				}
+				hts = append(hts, h)
 				store = append(store, vg.Tup(vg.Z(h), vg.Z(sc.hid(lb.Hash()))))
 				stxt = append(stxt, fmt.Sprintf("%d:%d", h, sc.hid(lb.Hash())))
 			}
@@ -1655,24 +1703,255 @@ func (sc *c09Scn) observe(cl *Client, err error, panicked interface{}, prim0 int
 		lt = append(lt, vg.Tup(vg.Z(e.p), vg.Z(e.h), vg.Z(e.r)))
 		ltxt = append(ltxt, fmt.Sprintf("p%d:%d->%d", e.p, e.h, e.r))
 	}
+	var xt []string
 	for _, e := range evs {
 		et = append(et, vg.Tup(vg.Z(e.p), vg.Z(e.h), vg.Z(e.r)))
-		etx = append(etx, fmt.Sprintf("to p%d: block id %d common %d", e.p, e.h, e.r))
+		x, xtxt := sc.evExtra(e, log)
+		xt = append(xt, x)
+		etx = append(etx, fmt.Sprintf("to p%d: block id %d common %d %s", e.p, e.h, e.r, xtxt))
 	}
+	sc.trustedBefore = hts
 	if len(etxt) > 160 {
 		etxt = etxt[:160] + "..."
 	}
 	etxt = strings.ReplaceAll(etxt, "\n", " ")
 	return c09Obs{class: class, store: len(store), unreadable: unreadable,
-		term: vg.Tup(vg.N(class), vg.L(store), vg.Z(prim), vg.ZL(wits), vg.L(et), vg.L(lt)),
+		term: vg.Tup(vg.N(class), vg.L(store), vg.Z(prim), vg.ZL(wits), vg.L(et), vg.L(lt), vg.L(xt)),
 		txt: fmt.Sprintf("class=%d err=%q store=[%s] primary=p%d witnesses=%v evidence=[%s] requests=[%s]",
 			class, etxt, strings.Join(stxt, " "), prim, wits, strings.Join(etx, "; "), strings.Join(ltxt, " "))}
+}
+
+
+// evExtra: the remaining fields of a reported evidence exactly as the implementation filled them
+// (table index of the conflicting light block, Timestamp, TotalVotingPower, ByzantineValidators as
+// (key id, power) in order) and the verdict of a real evidence.Pool over the honest chain.
+func (sc *c09Scn) evExtra(e c09EvEnt, log []c09LogEnt) (string, string) {
+	if e.ev == nil {
+		return vg.Tup(vg.Z(-1), vg.Z(0), vg.Z(0), vg.L(nil), vg.N(0)), "(not light client attack evidence)"
+	}
+	ev := e.ev
+	bi := -1
+	for _, b := range sc.blocks {
+		if b.lb == ev.ConflictingBlock {
+			bi = b.idx
+			break
+		}
+	}
+	if bi < 0 {
+		for _, b := range sc.blocks {
+			if bytes.Equal(b.lb.Hash(), ev.ConflictingBlock.Hash()) && b.lb.Commit != nil && ev.ConflictingBlock.Commit != nil &&
+				bytes.Equal(b.lb.Commit.Hash(), ev.ConflictingBlock.Commit.Hash()) &&
+				bytes.Equal(b.lb.ValidatorSet.Hash(), ev.ConflictingBlock.ValidatorSet.Hash()) {
+				bi = b.idx
+				break
+			}
+		}
+	}
+	var bz, btx []string
+	for _, v := range ev.ByzantineValidators {
+		kid := int64(0)
+		if v != nil {
+			if k, ok := c09AddrIdx[string(v.Address)]; ok {
+				kid = int64(k + 1)
+			}
+			bz = append(bz, vg.Tup(vg.Z(kid), vg.Z(v.VotingPower)))
+			btx = append(btx, fmt.Sprintf("k%d:%d", kid, v.VotingPower))
+		} else {
+			bz = append(bz, vg.Tup(vg.Z(-1), vg.Z(0)))
+			btx = append(btx, "nil")
+		}
+	}
+	code, why := sc.poolCheck(e, log)
+	sc.cs.Count("evidence-pool-"+why, 1)
+	return vg.Tup(vg.Z(int64(bi)), vg.Z(sc.tz(ev.Timestamp)), vg.Z(ev.TotalVotingPower), vg.L(bz), vg.N(uint64(code))),
+		fmt.Sprintf("(B%d) time %d total %d byzantine [%s] pool: %s", bi, sc.tz(ev.Timestamp), ev.TotalVotingPower,
+			strings.Join(btx, " "), why)
+}
+
+// poolCheck feeds the evidence into a real evidence.Pool built over the honest chain when the
+// premises of C09_evidence_is_admissible that can be decided on the case hold: the conflicting
+// block is not the honest block of its height; the receiver answered with honest blocks only
+// during the call (so the common and the trusted block are honest); the node holds the chain up
+// to the conflicting height when the receiver served that height, else up to the receiver's
+// highest block (forward lunatic attack); every signature FOR the conflicting block verifies;
+// and, where the client's own verification does not imply it (adjacent lunatic block, conflicting
+// block above the trusted block without invalid header), more than 1/3 of the validators of
+// CommonHeight signed the conflicting commit.  0 = not asked, 1 = accepted, 2 = refused.
+func (sc *c09Scn) poolCheck(e c09EvEnt, log []c09LogEnt) (int, string) {
+	ev := e.ev
+	cb := ev.ConflictingBlock
+	hc := cb.Height
+	if hc < 1 || hc > sc.n || cb.Commit == nil || cb.ValidatorSet == nil {
+		return 0, "skipped:conflicting-height-outside-chain"
+	}
+	if bytes.Equal(cb.Hash(), sc.ghash(hc)) {
+		return 0, "skipped:against-the-honest-block"
+	}
+	genuine := map[int64]int64{}
+	for h := int64(1); h <= sc.n; h++ {
+		genuine[sc.hid(sc.ghash(h))] = h
+	}
+	// the receiver's side is the honest chain: every block of its script is a genuine block (the
+	// block, not only the header: the honest header with another validator set is outside the
+	// provider contract and the detector takes the common validator set from the receiver)
+	isGen := map[int]bool{}
+	for h := int64(1); h <= sc.n; h++ {
+		isGen[sc.gen[h]] = true
+	}
+	for _, p := range sc.provs {
+		if p.id != e.p {
+			continue
+		}
+		for _, rs := range p.script0 {
+			for _, rp := range rs {
+				if rp.blk >= 0 && !isGen[rp.blk] {
+					return 0, "skipped:receiver-not-on-the-honest-chain"
+				}
+			}
+		}
+	}
+	served := int64(0)
+	for _, l := range log {
+		if l.p != e.p || l.r < 0 {
+			continue
+		}
+		h, ok := genuine[l.r]
+		if !ok {
+			return 0, "skipped:receiver-not-on-the-honest-chain"
+		}
+		if h > served {
+			served = h
+		}
+	}
+	for idx, cs := range cb.Commit.Signatures {
+		if !cs.ForBlock() {
+			continue
+		}
+		if idx >= len(cb.ValidatorSet.Validators) {
+			return 0, "skipped:for-block-signature-that-does-not-verify"
+		}
+		v := cb.ValidatorSet.Validators[idx]
+		if !bytes.Equal(v.Address, cs.ValidatorAddress) ||
+			!v.PubKey.VerifySignature(cb.Commit.VoteSignBytes(c09ChainID, int32(idx)), cs.Signature) {
+			return 0, "skipped:for-block-signature-that-does-not-verify"
+		}
+	}
+	if C09PoolAdd == nil {
+		return 0, "skipped:no-pool-hook"
+	}
+	// The trusted block is not part of the evidence.  Candidates for the node: one holding the
+	// whole honest chain (trusted block = its block of the conflicting height) and, when
+	// everything the receiver served is below the conflicting block, one whose chain ends at the
+	// receiver's highest block (forward lunatic attack).  The evidence must be admitted by one.
+	tops := []int64{sc.n}
+	if served >= 1 && served < hc {
+		tops = append(tops, served)
+	}
+	why := ""
+	asked := false
+	var lastErr error
+	kind := ""
+	for _, top := range tops {
+		trustedH := hc
+		if top < hc {
+			trustedH = top
+		}
+		trusted := sc.blocks[sc.gen[trustedH]].lb
+		lun := ev.ConflictingHeaderIsInvalid(trusted.Header)
+		k := "equivocation"
+		if lun {
+			k = "lunatic"
+		} else if trusted.Commit.Round != cb.Commit.Round {
+			k = "amnesia"
+		}
+		if top < hc {
+			k += "-forward"
+			if trusted.Time.Before(cb.Time) {
+				why = "skipped:block-above-and-later-than-the-node's-latest"
+				continue
+			}
+		}
+		H := ev.CommonHeight
+		if H >= 1 && H <= top && H != hc && !(lun && hc != H+1) {
+			cv := sc.blocks[sc.gen[H]].lb.ValidatorSet
+			if err := cv.VerifyCommitLightTrusting(c09ChainID, cb.Commit, tmmath.Fraction{Numerator: 1, Denominator: 3}); err != nil {
+				if lun {
+					why = "skipped:adjacent-lunatic-without-a-third-of-the-common-set"
+				} else {
+					why = "skipped:block-above-trusted-without-a-third-of-its-set"
+				}
+				continue
+			}
+		}
+		hs := make([]*types.SignedHeader, top+1)
+		vs := make([]*types.ValidatorSet, top+1)
+		for h := int64(1); h <= top; h++ {
+			hs[h] = sc.blocks[sc.gen[h]].lb.SignedHeader
+			vs[h] = sc.blocks[sc.gen[h]].lb.ValidatorSet
+		}
+		asked = true
+		if kind == "" {
+			kind = k
+		}
+		err := C09PoolAdd(c09ChainID, hs, vs, top, sc.times[top], ev)
+		if err == nil {
+			sc.evKindCount(e, k)
+			return 1, "accepted:" + k
+		}
+		lastErr = err
+	}
+	if !asked {
+		return 0, why
+	}
+	sc.evKindCount(e, kind)
+	sc.notes = append(sc.notes, fmt.Sprintf("evidence.Pool REFUSED %s evidence sent to p%d (conflicting block id %d, common height %d): %.200s",
+		kind, e.p, e.h, e.r, strings.ReplaceAll(lastErr.Error(), "\n", " ")))
+	return 2, "REFUSED:" + kind
+}
+
+// evKindCount: distribution of the evidence that reached the pool: kind of attack and whether the
+// validator set changed (powers only / membership) between the latest block the client trusted
+// below the conflicting height when the call began and the conflicting height
+func (sc *c09Scn) evKindCount(e c09EvEnt, kind string) {
+	hc := e.ev.ConflictingBlock.Height
+	from := int64(0)
+	for _, h := range sc.trustedBefore {
+		if h < hc && h > from {
+			from = h
+		}
+	}
+	ch := "valset-unknown-start"
+	if from >= 1 {
+		a, b := sc.vals[from], sc.vals[hc]
+		switch {
+		case a == b:
+			ch = "valset-same"
+		default:
+			same := len(a.keys) == len(b.keys)
+			if same {
+				am := map[int]bool{}
+				for _, k := range a.keys {
+					am[k] = true
+				}
+				for _, k := range b.keys {
+					same = same && am[k]
+				}
+			}
+			if same {
+				ch = "valset-powers-changed"
+			} else {
+				ch = "valset-membership-changed"
+			}
+		}
+	}
+	sc.cs.Count("evidence-checked-"+kind+"/"+ch, 1)
 }
 
 // ---------------------------------------------------------------- running a scenario
 
 func (sc *c09Scn) run(cs *vg.Cases, id int, kind string, header string) {
 	ctx := context.Background()
+	sc.cs = cs
 	var d strings.Builder
 	mode := "skipping"
 	if sc.sequential {
@@ -1733,6 +2012,10 @@ func (sc *c09Scn) run(cs *vg.Cases, id int, kind string, header string) {
 	}
 	for _, p := range sc.provs {
 		pt = append(pt, sc.provTerm(p))
+		p.script0 = map[int64][]c09Reply{}
+		for h, rs := range p.script {
+			p.script0[h] = rs
+		}
 	}
 	for _, v := range sc.valsets {
 		var l []string
@@ -1823,7 +2106,23 @@ func (sc *c09Scn) run(cs *vg.Cases, id int, kind string, header string) {
 	seq := vg.B(sc.sequential)
 	par := vg.Tup(vg.Z(1), vg.Z(int64(sc.period)), vg.Z(int64(sc.drift)), vg.Z(int64(sc.num)), vg.Z(int64(sc.den)), seq, vg.Z(int64(sc.prune)))
 	init := vg.Tup(vg.Z(prim.id), vg.ZL(witIDs), vg.Z(sc.root), vg.Z(rootID))
-	term := vg.App("CRun", par, vg.L(vst), vg.L(bt), vg.L(pt), vg.ZL(sc.order), init, initObs.term, vg.L(opt))
+	var hch []string
+	for h := int64(1); h <= sc.n; h++ {
+		hch = append(hch, vg.Nat(sc.gen[h]))
+	}
+	// rank of every key's address in the byte order of the addresses (index = key id, 0 unused)
+	nk := sc.nextKey
+	c09KeyAt(nk)
+	idx := make([]int, nk+1)
+	for i := range idx {
+		idx[i] = i
+	}
+	sort.Slice(idx, func(a, b int) bool { return bytes.Compare(c09KeyAt(idx[a]).addr, c09KeyAt(idx[b]).addr) < 0 })
+	ranks := make([]int64, nk+2)
+	for rk, k := range idx {
+		ranks[k+1] = int64(rk + 1)
+	}
+	term := vg.App("CRun", par, vg.L(vst), vg.L(bt), vg.L(pt), vg.ZL(sc.order), init, initObs.term, vg.L(opt), vg.L(hch), vg.ZL(ranks))
 	cs.Add(id, kind, nontrivial, term, d.String())
 }
 
@@ -1957,6 +2256,17 @@ func c09Random(r *vg.Rand) (*c09Scn, string) {
 		b := a + 1
 		if r.Bool() {
 			b = a + 1 + r.Int63n(n-a)
+		}
+		// drawn from a stream of its own so that the older choices of the scenario stay as they were
+		r2 := r.Fork(0xF77)
+		if r2.Chance(35) {
+			sc.forkKind = "amnesia"
+		}
+		if r2.Bool() {
+			sc.forkDT = []time.Duration{time.Nanosecond, 300 * time.Millisecond, 700 * time.Millisecond}[r2.Intn(3)]
+			if r2.Bool() {
+				sc.forkDT = -sc.forkDT
+			}
 		}
 		sc.makeFork(a, b, r.Chance(65), r.Intn(3), r.Chance(80))
 	}
@@ -2235,6 +2545,86 @@ func c09Collusion(r *vg.Rand, what string, seq bool, num, den uint64) *c09Scn {
 		}
 		p.script = s
 	}
+	for _, i := range r.Perm(len(sc.provs)) {
+		sc.order = append(sc.order, sc.provs[i].id)
+	}
+	return sc
+}
+
+
+// ---------------------------------------------------------------- attack family
+// The primary serves a fork from height T on that the client can verify from its root: an
+// equivocation (genuine sets, other DataHash), an amnesia (the same, committed in round 1) or a
+// lunatic fork (other AppHash, a set of the coalition's making, coalition just above the trust
+// level).  Between the root and T the validator set CHANGES (a power at root+1, a member at
+// root+3), so the common block of the bisection and the conflicting height have different sets.
+// The forged headers carry the genuine time, an earlier or a later one.  Witness 2 is honest;
+// optionally witness 3 colludes with the primary (serves the fork) and witness 4 is honest too.
+type c09AttackOpt struct {
+	kind    string // equivocation, amnesia, lunatic
+	dt      int    // -1, 0, +1
+	collude bool
+	seq     bool
+	extra   bool
+}
+
+func c09AttackKind(o c09AttackOpt) string {
+	mode := "skip"
+	if o.seq {
+		mode = "seq"
+	}
+	c := "alone"
+	if o.collude {
+		c = "colluding-witness"
+	}
+	return fmt.Sprintf("attack-%s/time%+d/%s/%s", o.kind, o.dt, c, mode)
+}
+
+func c09Attack(r *vg.Rand, o c09AttackOpt) *c09Scn {
+	sc := c09NewScn(r)
+	sc.sequential = o.seq
+	sc.root = 2
+	switch r.Intn(3) {
+	case 0:
+		sc.forceChurn = map[int64]int{4: 1} // a power changes
+	case 1:
+		sc.forceChurn = map[int64]int{4: 2} // a validator is replaced
+	default:
+		sc.forceChurn = map[int64]int{3: 1, 5: 2}
+	}
+	sc.genChain(int64(9 + r.Intn(3)))
+	n := sc.n
+	sc.rootHash = sc.ghash(sc.root)
+	T := int64(6 + r.Intn(3))
+	sc.forkKind = o.kind
+	sc.forkDT = time.Duration(o.dt) * []time.Duration{time.Nanosecond, 400 * time.Millisecond, 900 * time.Millisecond}[r.Intn(3)]
+	a := sc.root
+	if o.kind == "lunatic" && r.Bool() {
+		a = T - 1 - int64(r.Intn(2))
+	}
+	sc.makeFork(a, T, o.kind == "lunatic", 2, true)
+	sc.ops = []c09Op{{h: T, now: sc.nowMain}}
+	if r.Chance(30) {
+		sc.ops = []c09Op{{update: true, now: sc.nowMain}}
+	}
+	np := 2
+	if o.collude {
+		np = 3
+	}
+	if o.extra {
+		np++
+	}
+	sc.setProviders(np)
+	for i, p := range sc.provs {
+		liar := i == 0 || (o.collude && i == 2)
+		if liar {
+			sc.behave(p, "liar", "mixed")
+		} else {
+			sc.behave(p, "honest", "mixed")
+		}
+		p.validating = true
+	}
+	_ = n
 	for _, i := range r.Perm(len(sc.provs)) {
 		sc.order = append(sc.order, sc.provs[i].id)
 	}
@@ -2550,6 +2940,28 @@ func TestVerifC09Client(t *testing.T) {
 		}
 		sc, kind := c09SelfRandom(root.Fork(uint64(id)))
 		sc.run(cs, id, kind, "random scenario "+kind)
+	}
+	// attack family (evidence contents, F77; forged header times, seed C09e); appended
+	for rep := 0; rep < vg.Scale(1, 6); rep++ {
+		for _, kind := range []string{"equivocation", "amnesia", "lunatic"} {
+			for _, dt := range []int{-1, 0, 1} {
+				for _, collude := range []bool{false, true} {
+					for _, seq := range []bool{false, true} {
+						if seq && kind == "lunatic" {
+							continue // a set of the coalition's own making fails the adjacent check
+						}
+						id := cs.NextID()
+						if !cs.Want(id) {
+							continue
+						}
+						r := root.Fork(uint64(id))
+						o := c09AttackOpt{kind: kind, dt: dt, collude: collude, seq: seq, extra: r.Chance(30)}
+						k := c09AttackKind(o)
+						c09Attack(r, o).run(cs, id, k, k+": the primary serves a verifiable fork, the validator set changed between the root and the fork")
+					}
+				}
+			}
+		}
 	}
 	if len(c09Blocked) > 0 {
 		cs.Count("goroutines-left-blocked-on-errc", len(c09Blocked))
